@@ -178,15 +178,17 @@ func (e *Env) lookupLocal(name string) (TV, bool) {
 		if al.Comment == base {
 			k++
 			if k == want {
+				et := al.Type().(*types.Pointer).Elem()
 				p, ok := e.fr.env[al].(*PtrV)
 				if !ok {
-					continue
+					// declared on a path not taken: its value is unspecified
+					return TV{Var("undef_local_"+name, sortOf(et)), et}, true
 				}
 				c, has := e.cur.heap[p.Obj.id]
 				if !has {
-					efail("local %s not live in this state", name)
+					return TV{Var("undef_local_"+name, sortOf(et)), et}, true
 				}
-				return TV{c, al.Type().(*types.Pointer).Elem()}, true
+				return TV{c, et}, true
 			}
 		}
 	}
@@ -608,6 +610,36 @@ func (e *Env) evalCall(x *Expr) TV {
 		}
 		if sp, ok := e.ex.contracts.Specs[f.Val]; ok {
 			return e.applySpec(sp, args)
+		}
+		if v, ok := e.vars[f.Val]; ok {
+			if fv, isF := v.V.(*FuncV); isF {
+				// call of a function-typed parameter
+				var vals []Val
+				for _, a := range args {
+					vals = append(vals, e.eval(a).V)
+				}
+				var ret Val
+				var sig *types.Signature
+				if fv.Fn != nil {
+					ret = e.ex.callPureB(fv.Fn, vals, fv.Bindings, e.cur)
+					sig = fv.Fn.Signature
+				} else {
+					rs := e.ex.callBuiltinClosure(fv, vals, e.cur.Clone())
+					ret = rs[0].ret
+					sig = fv.Sig
+				}
+				var rt types.Type
+				if sig != nil {
+					switch sig.Results().Len() {
+					case 0:
+					case 1:
+						rt = sig.Results().At(0).Type()
+					default:
+						rt = sig.Results()
+					}
+				}
+				return TV{ret, rt}
+			}
 		}
 		if _, isUF := ufTable[f.Val]; isUF || strings.HasPrefix(f.Val, "eff_") || strings.HasPrefix(f.Val, "q_") || strings.HasPrefix(f.Val, "ext_") || strings.HasPrefix(f.Val, "cmd_") {
 			// uninterpreted dependency symbol used by the executor (effects, queries)
